@@ -874,6 +874,9 @@ func (fr *frame) unop(instr *ssa.UnOp, x value) value {
 	case token.ARROW: // receive
 		ch := x.(*chanq)
 		if ch == nil {
+			if fr.i.thr != nil {
+				fr.i.park(fr, ch, false) // blocks forever
+			}
 			panic(pathAbort{"assume", "receive from nil channel blocks forever at " + fr.pos()})
 		}
 		v, ok := ch.recv(fr, instr.X.Type().Underlying().(*types.Chan).Elem())
@@ -1020,6 +1023,7 @@ func callBuiltin(caller *frame, fn *ssa.Builtin, args []value) value {
 			caller.rtPanic("close of closed channel")
 		}
 		ch.closed = true
+		caller.i.chanClosed(ch)
 		return nil
 
 	case "delete": // delete(map[K]value, K)
